@@ -57,3 +57,15 @@ package ice
 //@   ensures most-specific-catchall: forall j int :: 0 <= j && j < len(rules) && (forall k int :: 0 <= k && k < len(rules) ==> !(rwM(rules[k], locIP, isLocIPv4, iface) && rwX(rules[k], locIP, isLocIPv4))) && rwM(rules[j], locIP, isLocIPv4, iface) && rwC(rules[j], isLocIPv4) && (forall k int :: 0 <= k && k < len(rules) && rwM(rules[k], locIP, isLocIPv4, iface) && rwC(rules[k], isLocIPv4) ==> rwS(rules[k]) < rwS(rules[j]) || (rwS(rules[k]) == rwS(rules[j]) && j <= k)) ==> matched && mode == rules[j].mode && (len(ips) > 0 ==> cloneSrc(ips.base) == rwSole(rules[j], isLocIPv4))
 //@   ensures no-match: (forall k int :: 0 <= k && k < len(rules) ==> !(rwM(rules[k], locIP, isLocIPv4, iface) && (rwX(rules[k], locIP, isLocIPv4) || rwC(rules[k], isLocIPv4)))) ==> !matched && ips == nil && mode == 0
 //@   ensures matched-implies-rule: matched ==> exists j int :: 0 <= j && j < len(rules) && rwM(rules[j], locIP, isLocIPv4, iface) && (rwX(rules[j], locIP, isLocIPv4) || rwC(rules[j], isLocIPv4)) && mode == rules[j].mode
+
+// External addresses are filed under the family of the rule's LOCAL scope: the
+// pinned Local address if any, else the CIDR, else the external's own family —
+// so IPv4 and IPv6 never cross unless pinned; the Networks filter is applied to
+// that target family.
+//@ func addExternalMappings
+//@   props C19
+//@   site call isFamilyAllowed#1 assert filter-on-the-local-scope-family: arg1 == targetLocalIPv4
+//@   site call isFamilyAllowed#1 assert pinned-local-decides-family: hasLocalAddr ==> targetLocalIPv4 == localIsIPv4
+//@   site call isFamilyAllowed#1 assert unscoped-rule-uses-external-family: !hasLocalAddr && ruleMapping.cidr == nil ==> targetLocalIPv4 == isExtIPv4
+//@   site call addImplicitMapping#1 assert files-under-target-family: arg1 == extIP && arg2 == targetLocalIPv4 && arg3 == hasLocalAddr && arg4 == localAddr
+//@   ensures error-adds-nothing-reported: err != nil ==> !result0
